@@ -93,6 +93,95 @@ theorem spellerPost_inv (hrc : ComposeSpec env.recompose) {r : Ctx × Bool} (h :
     · exact spellerAutoClear_inv hrc h
     · exact h
 
+theorem femSelect_inv (hrc : ComposeSpec env.recompose) (input : Bytes) (e : Nat) {c : Ctx} (h : Inv c) :
+    Inv (femSelect env input e c).1 := by
+  unfold femSelect
+  split
+  · exact setInput_inv hrc (commit_inv hrc h) _
+  · exact setInput_inv hrc (confirmCurrentSelection_inv hrc h) _
+
+theorem femContinue_inv (k : Nat → Nat → Ctx → Ctx × Bool) (hk : ∀ s e c, Inv c → Inv (k s e c).1)
+    {r : Ctx × Nat} (h : Inv r.1) : Inv (femContinue k r) := by
+  unfold femContinue
+  split
+  · exact hk _ _ _ h
+  · exact h
+
+theorem femGo_inv (hrc : ComposeSpec env.recompose) (k : Nat → Nat → Ctx → Ctx × Bool)
+    (hk : ∀ s e c, Inv c → Inv (k s e c).1) (input : Bytes) :
+    ∀ (es : List Nat) {c : Ctx}, Inv c → Inv (femGo env k input es c).1
+  | [], c, h => by
+    unfold femGo
+    exact setInput_inv hrc h _
+  | e :: es, c, h => by
+    unfold femGo
+    have h1 : Inv (Ctx.setInput env c (input.take e)) := setInput_inv hrc h _
+    dsimp only
+    split
+    · exact setInput_inv hrc h1 _
+    · split
+      · exact femGo_inv hrc k hk input es h1
+      · split
+        · exact femContinue_inv k hk (femSelect_inv hrc input e h1)
+        · exact femGo_inv hrc k hk input es h1
+
+theorem findEarlierMatch_inv (hrc : ComposeSpec env.recompose) :
+    ∀ (fuel s e : Nat) (c : Ctx), Inv c → Inv (findEarlierMatch env fuel s e c).1
+  | 0, _, _, _, h => by unfold findEarlierMatch; exact h
+  | fuel + 1, s, e, c, h => by
+    unfold findEarlierMatch
+    split
+    · exact h
+    · exact femGo_inv hrc _ (findEarlierMatch_inv hrc fuel) _ _ h
+
+theorem replaceLastSeg_inv {c : Ctx} (h : Inv c) {p : Seg} (hp : SelOK p) : Inv (c.replaceLastSeg p) :=
+  ⟨⟨h.caret_le, SegsOK.append h.segs_ok.dropLast (SegsOK.singleton hp)⟩, h.cinput_le⟩
+
+theorem reusePreviousMatch_inv (hrc : ComposeSpec env.recompose) {c : Ctx} (h : Inv c) {p : Seg} (hp : SelOK p) :
+    Inv (reusePreviousMatch env p c) := by
+  unfold reusePreviousMatch
+  have h2 := confirmCurrentSelection_inv hrc (replaceLastSeg_inv h hp)
+  dsimp only
+  split
+  · exact setInput_inv hrc (commit_inv hrc (setInput_inv hrc h2 _)) _
+  · exact h2
+
+theorem autoSelectPreviousMatch_inv (hrc : ComposeSpec env.recompose) {prev : Option Seg}
+    (hp : ∀ p, prev = some p → SelOK p) {c : Ctx} (h : Inv c) :
+    Inv (autoSelectPreviousMatch env prev c).1 := by
+  unfold autoSelectPreviousMatch
+  split
+  · exact h
+  · split
+    · exact h
+    · split
+      · exact h
+      · split
+        · exact h
+        · rename_i p
+          split
+          · exact h
+          · split
+            · exact reusePreviousMatch_inv hrc h (hp p rfl)
+            · exact findEarlierMatch_inv hrc _ _ _ _ h
+
+theorem spellerPrev_ok {c : Ctx} (h : Inv c) : ∀ p, spellerPrev env c = some p → SelOK p := by
+  intro p hp
+  unfold spellerPrev at hp
+  split at hp
+  · exact h.segs_ok.getLast hp
+  · cases hp
+
+theorem spellerTail_inv (hrc : ComposeSpec env.recompose) (isInitial : Bool) {prev : Option Seg}
+    (hp : ∀ p, prev = some p → SelOK p) {c : Ctx} (h : Inv c) :
+    Inv (spellerTail env isInitial prev c).1 := by
+  unfold spellerTail
+  have h1 := autoSelectPreviousMatch_inv hrc hp h
+  dsimp only
+  split
+  · exact popInput_inv hrc h1 _
+  · exact spellerPost_inv hrc (autoSelectUniqueCandidate_inv hrc h1)
+
 theorem spellerProcess_inv (hrc : ComposeSpec env.recompose) (k : Key) {c : Ctx} (h : Inv c) :
     Inv (spellerProcess env k c).1 := by
   unfold spellerProcess
@@ -107,8 +196,8 @@ theorem spellerProcess_inv (hrc : ComposeSpec env.recompose) (k : Key) {c : Ctx}
         · exact h
         · split
           · exact h
-          · exact spellerPost_inv hrc (autoSelectUniqueCandidate_inv hrc
-              (beginEditing_inv (pushInput_inv hrc (spellerPre_inv hrc _ h) _)))
+          · have hpre := spellerPre_inv hrc (env.initials.contains k.byte) h
+            exact spellerTail_inv hrc _ (spellerPrev_ok hpre) (beginEditing_inv (pushInput_inv hrc hpre _))
 
 /-! selector -/
 
